@@ -666,6 +666,7 @@ func decoderCases(seed uint64, tier string) []dcase {
 			}
 		}
 	}
+	cs = append(cs, declaredSizeCases(tier)...)
 	for _, d := range yamlCases() {
 		cs = append(cs, dcase{d.reader, d.kind, d.data, d.aux})
 	}
@@ -712,6 +713,7 @@ func decoderReaders() map[string]func(c dcase) error {
 		_, err = a.GetInstalled()
 		return err
 	}
+	declSizeReaders(rs)
 	mkdir := func(c dcase) (string, error) {
 		d, err := os.MkdirTemp(tmpRoot, "doc")
 		if err != nil {
@@ -803,10 +805,13 @@ func childDecoders(from, stride int, seed uint64, tier string) {
 			}
 		}()
 		silent = true
+		var m0, m1 runtime.MemStats
+		runtime.ReadMemStats(&m0)
 		t0 := time.Now()
 		cl := call(c.reader, func([]byte) error { return rs[c.reader](c) }, c.data, decoderDeadline(tier))
 		close(stop)
-		fmt.Fprintf(out, "END %d %d %d %d %s\n", i, cl, time.Since(t0).Milliseconds(), peak>>20, lastPanic)
+		runtime.ReadMemStats(&m1)
+		fmt.Fprintf(out, "END %d %d %d %d %d %s\n", i, cl, time.Since(t0).Milliseconds(), peak>>20, (m1.TotalAlloc-m0.TotalAlloc)>>20, lastPanic)
 		out.Flush()
 		if cl == ckHang {
 			// the stuck goroutine keeps running (and growing): leave it to the parent to restart
@@ -823,9 +828,9 @@ func childDecoders(from, stride int, seed uint64, tier string) {
 func runDecoders(dir string, seed uint64, tier string) error {
 	cs := decoderCases(seed, tier)
 	type res struct {
-		class  int
-		ms, mb int
-		what   string
+		class         int
+		ms, mb, alloc int
+		what          string
 	}
 	results := make([]res, len(cs))
 	for i := range results {
@@ -873,7 +878,7 @@ func runDecoders(dir string, seed uint64, tier string) error {
 					if !ok {
 						break loop
 					}
-					f := strings.SplitN(l, " ", 6)
+					f := strings.SplitN(l, " ", 7)
 					switch f[0] {
 					case "BEGIN":
 						current, _ = strconv.Atoi(f[1])
@@ -882,11 +887,12 @@ func runDecoders(dir string, seed uint64, tier string) error {
 						cl, _ := strconv.Atoi(f[2])
 						ms, _ := strconv.Atoi(f[3])
 						mb, _ := strconv.Atoi(f[4])
+						alloc, _ := strconv.Atoi(f[5])
 						what := ""
-						if len(f) > 5 {
-							what = f[5]
+						if len(f) > 6 {
+							what = f[6]
 						}
-						results[i] = res{cl, ms, mb, what}
+						results[i] = res{cl, ms, mb, alloc, what}
 						current = -1
 						from = i + workers
 					case "DONE":
@@ -917,9 +923,9 @@ func runDecoders(dir string, seed uint64, tier string) error {
 				case killed:
 					kind = "child-stuck"
 				}
-				results[current] = res{ckPanic, 0, 0, "process died: " + kind}
+				results[current] = res{ckPanic, 0, 0, 0, "process died: " + kind}
 				c := cs[current]
-				j, _ := json.Marshal(map[string]any{"reader": c.reader, "kind": c.kind, "what": "the process died: " + kind, "input_len": len(c.data), "input_base64_head": base64.StdEncoding.EncodeToString(head(c.data, 300))})
+				j, _ := json.Marshal(map[string]any{"reader": c.reader, "kind": c.kind, "what": "the process died: " + kind, "input_len": len(c.data), "input_base64_head": base64.StdEncoding.EncodeToString(head(c.data, 600))})
 				fmt.Printf("IMPL-VIOLATION tag=crash-%s/%s %s\n", c.reader, kind, j)
 				from = current + workers
 			}
@@ -944,7 +950,7 @@ func runDecoders(dir string, seed uint64, tier string) error {
 		return firstErr
 	}
 	// report
-	type agg struct{ ok, err, panic_, hang, maxMs, maxMB int }
+	type agg struct{ ok, err, panic_, hang, maxMs, maxMB, maxAlloc int }
 	per := map[string]*agg{}
 	slow := []string{}
 	reportedTags := map[string]int{}
@@ -971,6 +977,19 @@ func runDecoders(dir string, seed uint64, tier string) error {
 		if r.mb > a.maxMB {
 			a.maxMB = r.mb
 		}
+		if r.alloc > a.maxAlloc {
+			a.maxAlloc = r.alloc
+		}
+		// a declared member size must not size an allocation: a few hundred bytes of input, bounded work
+		if strings.HasPrefix(c.kind, "declared-size/") && r.alloc > declSizeAllocLimitMiB {
+			tag := "memory-" + c.reader + "/declared-size"
+			if reportedTags[tag] < 3 {
+				reportedTags[tag]++
+				j, _ := json.Marshal(map[string]any{"reader": c.reader, "kind": c.kind, "what": fmt.Sprintf("%d MiB allocated while reading %d bytes of input (limit %d MiB): a buffer is sized by the size the tar header declares", r.alloc, len(c.data), declSizeAllocLimitMiB),
+					"input_len": len(c.data), "input_base64": base64.StdEncoding.EncodeToString(head(c.data, 2000))})
+				fmt.Printf("IMPL-VIOLATION tag=%s %s\n", tag, j)
+			}
+		}
 		if r.ms > 1000 {
 			slow = append(slow, fmt.Sprintf("%s/%s %dms", c.reader, c.kind, r.ms))
 		}
@@ -984,14 +1003,14 @@ func runDecoders(dir string, seed uint64, tier string) error {
 			}
 			if reportedTags[tag] < 3 {
 				reportedTags[tag]++
-				j, _ := json.Marshal(map[string]any{"reader": c.reader, "kind": c.kind, "what": r.what, "input_len": len(c.data), "input_base64_head": base64.StdEncoding.EncodeToString(head(c.data, 300))})
+				j, _ := json.Marshal(map[string]any{"reader": c.reader, "kind": c.kind, "what": r.what, "input_len": len(c.data), "input_base64_head": base64.StdEncoding.EncodeToString(head(c.data, 600))})
 				fmt.Printf("IMPL-VIOLATION tag=%s %s\n", tag, j)
 			}
 		}
 	}
 	st := map[string]any{}
 	for k, a := range per {
-		st[k] = map[string]int{"ok": a.ok, "err": a.err, "panic": a.panic_, "timeout": a.hang, "max_ms": a.maxMs, "max_heap_MiB": a.maxMB}
+		st[k] = map[string]int{"ok": a.ok, "err": a.err, "panic": a.panic_, "timeout": a.hang, "max_ms": a.maxMs, "max_heap_MiB": a.maxMB, "max_alloc_MiB": a.maxAlloc}
 	}
 	j, _ := json.Marshal(map[string]any{"decoders_structured_cases": len(cs), "decoders_outcomes": st, "decoders_slower_than_1s": slow, "decoders_child_restarts": restarts,
 		"decoders_note": "exploration of library decoders with field-level hostile inputs; not a proof"})
